@@ -1,7 +1,8 @@
 (* C15 - SCC lines longer than 32 characters are never returned silently.
    Model: model/SccLen.v (the scan at the end of SCCReader.read, after fix #5); spec: spec/SpecSccLen.v. *)
 From Coq Require Import List ZArith Bool Permutation.
-From PV Require Import lib.Sx lib.Str model.SccLen spec.SpecSccLen proofs.SccLenFacts.
+From Coq Require Import QArith.
+From PV Require Import lib.Sx lib.Str lib.Result model.SccLen model.SccStash model.SccDecoder spec.SpecSccLen proofs.SccLenFacts proofs.SccReadLenFacts.
 Import ListNotations.
 Open Scope Z_scope.
 
@@ -40,6 +41,20 @@ Theorem C15_length_check_order_free : forall caps caps', Permutation caps caps' 
   Permutation (named_lines caps) (named_lines caps').
 Proof. exact length_check_order_free. Qed.
 Print Assumptions C15_length_check_order_free.
+
+(* END TO END on the whole reader model (model/SccDecoder.v): for EVERY stream (any lines, any code words, any offset)
+   read never returns a caption line longer than 32 characters, and the line-length error names every over-long line
+   of the captions the decoder had stored *)
+Theorem C15_read_never_silent : forall off ls,
+  match read off ls with
+  | ROk caps => forall c l, In c caps -> In l (spec_lines (cap_text c)) -> (length l <= 32)%nat
+  | RLen msg => offending (stored_caps off ls) <> [] /\
+                (forall l, In l (offending (stored_caps off ls)) -> names msg l = true) /\
+                Permutation (named_lines (stored_caps off ls)) (offending (stored_caps off ls))
+  | RErr _ => True
+  end.
+Proof. exact read_never_silent. Qed.
+Print Assumptions C15_read_never_silent.
 
 (* the code before fix #5 (`lines_too_long[start] = ...` on an existing key): a 34-character line is let through,
    and the outcome depends on the order *)
